@@ -24,22 +24,74 @@ def helpers_in(tree, acc):
     return acc
 
 
-def classify_entry(text):
-    """why the reference rejects/accepts the first entry of a result list differently (label for the key only;
-    the verdict itself is computed in Coq by pcase_prop_ok)"""
-    for ent in text.split(";"):
-        s = ent.strip(" \t\n\v\f\r")
-        if s == "" or s == "DIRECT":
-            continue
-        kw, sep, hp = s.partition(" ")
-        if not sep:
-            continue
-        host = hp.rsplit(":", 1)[0] if ":" in hp else hp
-        if host == "" or host == "[]":
-            return "parse-empty-host-accepted"
-        if any(ord(c) <= 32 or ord(c) >= 127 for c in host):
-            return "parse-blank-in-host-accepted"
-    return "parse-entry-differs-from-reference"
+def py_spec_entry(ent):
+    """mirror of G14.Spec.spec_entry, for labelling a failing case only (the verdict is Coq's)"""
+    s = ent.strip(" \t\n\v\f\r")
+    if s in ("", "DIRECT"):
+        return ("direct", None)
+    kw, sep, hp = s.partition(" ")
+    if not sep:
+        return ("malformed", "no-host-port")
+    i = hp.rfind(":")
+    if i < 0:
+        return ("malformed", "no-port")
+    port = hp[i + 1:]
+    if hp.startswith("["):
+        e = hp.find("]")
+        if e < 0 or e + 1 != i or "[" in hp[1:] or "]" in hp[e + 1:]:
+            return ("malformed", "bad-brackets")
+        host = hp[1:e]
+    else:
+        host = hp[:i]
+        if ":" in host or "[" in hp or "]" in hp:
+            return ("malformed", "bad-host-port")
+    if host == "":
+        return ("malformed", "empty-host")
+    if any(ord(c) <= 32 or ord(c) == 127 for c in host):
+        return ("malformed", "blank-in-host")
+    if not (port.isascii() and port.isdigit() and int(port) <= 65535):
+        return ("malformed", "bad-port")
+    mode = kw if kw in KNOWN_KW else "DIRECT"
+    return ("proxy", [mode, host, port])
+
+
+def classify_entry(case):
+    """label of a failing result-list case: what the first entry is to the reference vs what First() returned"""
+    text = case.get("text", "")
+    first = text.split(";")[0] if text else ""
+    kind, val = py_spec_entry(first)
+    got = case.get("first")
+    if kind == "malformed" and got is not None:
+        return "parse-%s-accepted" % val
+    if kind != "malformed" and got is None:
+        return "parse-wellformed-entry-rejected"
+    if kind == "proxy" and got is not None and list(got) != list(val):
+        return "parse-entry-mapped-to-another-proxy"
+    if kind == "direct" and got is not None and list(got) != ["DIRECT", "", ""]:
+        return "parse-empty-entry-not-direct"
+    if kind == "proxy" and got is not None:
+        want = "" if val[0] == "DIRECT" else ("http" if val[0] == "PROXY" else val[0].lower()) + "://" + \
+            ("[%s]:%s" % (val[1], val[2]) if ":" in val[1] else "%s:%s" % (val[1], val[2]))
+        if case.get("url", "") != want:
+            return "parse-keyword-mapped-to-another-scheme"
+    return "parse-list-differs-from-reference"
+
+
+def failing_obligations(make_log):
+    """names of the lemmas of Obligations.v at which the build stopped (from the make -k log)"""
+    import re
+    path = os.path.join(common.VERIF, "coq", GROUP, "Obligations.v")
+    lines = open(path).read().splitlines() if os.path.exists(path) else []
+    names = []
+    for m in re.finditer(r'File "\./Obligations\.v", line (\d+)', make_log):
+        cur = None
+        for l in lines[:int(m.group(1))]:
+            mm = re.match(r"\s*(?:Lemma|Theorem)\s+([A-Za-z0-9_']+)", l)
+            if mm:
+                cur = mm.group(1)
+        if cur and cur not in names:
+            names.append(cur)
+    return names
 
 
 def run(ctx):
@@ -69,9 +121,9 @@ def run(ctx):
     if info["rc"] != 0:
         ob_failed.append("theorem %s in %s no longer checks: %s" % (
             info.get("failed_at"), PROP_FILE, " ".join(info["log"].split())[-400:]))
-        ob_log = [l for l in log.splitlines() if "Obligations.v" in l or "Unable to unify" in l]
-        if ob_log:
-            ob_failed.append("obligation: " + " ".join(ob_log)[:400])
+        names = failing_obligations(log)
+        if names:
+            ob_failed.insert(0, "table obligation(s) no longer hold for the source tree: " + ", ".join(names))
     if core_broken:
         ob_failed.append("model/proof files do not compile: %s\n%s" % (core_broken, log[-1500:]))
 
@@ -154,7 +206,7 @@ def run(ctx):
     if bad["pcases"]["P"]:
         groups = {}
         for c in bad["pcases"]["P"]:
-            groups.setdefault(classify_entry(c.get("text", "")), []).append(c)
+            groups.setdefault(classify_entry(c), []).append(c)
         for key, cs in sorted(groups.items()):
             c = min(cs, key=lambda x: len(x.get("text", "")))
             ctx.violation(key, dict(c, kind="parse"), True,
@@ -164,8 +216,34 @@ def run(ctx):
         c = min(bad["pcases"]["M"], key=lambda x: len(x.get("text", "")))
         ctx.violation("parse-correspondence", dict(c, kind="parse", unchecked="correspondence model(g14 proxies_first/all)/pac.Proxies"),
                       False, "%d result strings; smallest %r" % (len(bad["pcases"]["M"]), c.get("text")))
-    # pool
+    # pool: the same stream again from a binary built with the race detector
     pool = meta.get("pool") or {}
+    race = {"built": False}
+    if hb is not None and not ctx.replay:
+        rbin = os.path.join(ctx.work, "harness-c14-race")
+        modfile = os.path.join(ctx.work, "go.mod")
+        rc, rlog = common.sh([common.go_cmd(), "build", "-race", "-modfile=" + modfile, "-tags", "verif", "-o", rbin, "./cmd/" + HARNESS],
+                             cwd=os.path.join(common.VERIF, "harness"), env=common.go_env(), timeout=900)
+        if rc == 0:
+            race["built"] = True
+            pdir = os.path.join(ctx.work, "pool")
+            env = dict(os.environ, GORACE="halt_on_error=0 exitcode=66")
+            rc, rout = common.sh([rbin, "-seed", str(ctx.seed), "-tier", ctx.tier, "-out", pdir, "-only", "pool"], timeout=900, env=env)
+            race["exit"] = rc
+            race["races_reported"] = rout.count("WARNING: DATA RACE")
+            if os.path.exists(os.path.join(pdir, "meta.json")):
+                rpool = json.load(open(os.path.join(pdir, "meta.json"))).get("pool") or {}
+                race["calls"] = rpool.get("calls")
+                if rpool.get("mismatches") and not pool.get("mismatches"):
+                    pool = dict(pool, mismatches=rpool["mismatches"])
+            if race["races_reported"] or rc not in (0, 66):
+                i = rout.find("WARNING: DATA RACE")
+                ctx.violation("pool-data-race", dict(kind="pool", race_report=rout[i:i + 1500] if i >= 0 else rout[-1500:]), True,
+                              "the race detector reports %d data race(s) (exit %s) while goroutines evaluate through ProxyResolverPool"
+                              % (race["races_reported"], rc))
+        else:
+            ctx.notes.append({"race_build_failed": rlog[-400:]})
+    ctx.log("pool under -race: %s" % race)
     if pool.get("mismatches"):
         ctx.violation("pool-concurrent-answers-differ", dict(kind="pool", mismatches=pool["mismatches"]), True,
                       "answers through ProxyResolverPool under %s goroutines differ from sequential evaluation: %s"
@@ -206,7 +284,7 @@ def run(ctx):
                                     "meaning": "a glob pattern with a JavaScript regexp metacharacter other than . * ? "
                                                "(outside the property's domain; Mozilla's helper treats it as regexp syntax)"},
         "distribution": {k: meta.get(k) for k in ("counts", "helper_calls_in_scripts", "entry_point_variants", "evaluation_outcomes")},
-        "pool": {k: pool.get(k) for k in ("scripts", "goroutines", "calls")},
+        "pool": dict({k: pool.get(k) for k in ("scripts", "goroutines", "calls")}, race_detector=race),
         "samples": [{"scripts": meta.get("samples_scripts")}, {"result_lists": meta.get("samples_result_lists")}],
     }
     ctx.finish("proof", coverage, [
